@@ -155,6 +155,15 @@ def make_variant(v):
         b = rng2.choice(d["basetypes"])
         ft = rng2.choice([x[0] for x in d["file_types"]])
         d["type_state_names"] = {"%s__%s" % (b["name"], ft): dict(zip(sorted(d["states"]), ["REVIEW", "DAILIES"]))}
+    if rng2.random() < 0.3:
+        # multi-word key names (an underscore inside the key, hence after the '__' of the type names built from it)
+        chosen.append("underscore_keys")
+        if d["keys"]["state"] == "state" or rng2.random() < 0.5:
+            d["keys"]["state"] = "pub_state"
+        for b in d["basetypes"]:
+            for lv in b["levels"]:
+                if "_" not in lv[0] and rng2.random() < 0.4:
+                    lv[0] = lv[0] + "_name"
     d["transformations"] = chosen
     if "leaf_per_base" in chosen:
         # "a leaf key per basetype": the last basetype names its leaf key differently from the others
